@@ -320,3 +320,12 @@ pub fn prop() -> Prop {
         extra: None,
     }
 }
+
+/// Re-used by C06.
+pub fn gcase_pub() -> BoxedStrategy<CkCase> {
+    gcase()
+}
+
+pub fn o_case_pub(c: &CkCase, st: &mut Stats) -> Result<(), String> {
+    o_case(c, st)
+}
